@@ -1027,10 +1027,63 @@ func (c *c10Case) crashAll(n int, extraWrong string) {
 	}
 }
 
+// c10SealedCommit (directed): "while sealed, the barrier serves no read, write, list or delete" — including the writes a
+// storage TRANSACTION buffered before the barrier was sealed (the barrier of a separately sealed namespace is sealed
+// without waiting for that namespace's requests). Op line:
+//   sealedcommit => get:<refused|served>|put:<refused|ok>|commit:<refused|ok>|entry:<absent|present>
+func c10SealedCommit(t *testing.T, out *vh.Out) {
+	out.Reset()
+	ctx := context.Background()
+	inm, err := inmem.NewInmem(nil, log.NewNullLogger())
+	if err != nil {
+		t.Fatal(err)
+	}
+	b, ok := NewAESGCMBarrier(inm, nil).(*TransactionalAESGCMBarrier)
+	if !ok {
+		t.Fatal("no transactional barrier over the transactional in-memory backend")
+	}
+	key, _ := b.GenerateKey()
+	if err := b.Initialize(ctx, key, nil); err != nil {
+		t.Fatal(err)
+	}
+	if err := b.Unseal(ctx, key); err != nil {
+		t.Fatal(err)
+	}
+	txn, err := b.BeginTx(ctx)
+	if err != nil {
+		t.Fatal(err)
+	}
+	if err := txn.Put(ctx, &logical.StorageEntry{Key: "secret/foo", Value: []byte("bar")}); err != nil {
+		t.Fatal(err)
+	}
+	if err := b.Seal(); err != nil {
+		t.Fatal(err)
+	}
+	cls := func(err error, okName string) string {
+		if err != nil {
+			return "refused"
+		}
+		return okName
+	}
+	_, gerr := txn.Get(ctx, "secret/foo")
+	perr := txn.Put(ctx, &logical.StorageEntry{Key: "secret/foo2", Value: []byte("bar")})
+	cerr := txn.Commit(ctx)
+	entry := "absent"
+	if e, _ := inm.Get(ctx, "secret/foo"); e != nil {
+		entry = "present"
+	}
+	res := "get:" + cls(gerr, "served") + "|put:" + cls(perr, "ok") + "|commit:" + cls(cerr, "ok") + "|entry:" + entry
+	if cerr == nil || entry == "present" {
+		res += "!VIOL:a sealed barrier served a write: the commit of a transaction begun before the seal was accepted and its entry reached the physical store#sealed-barrier-committed-transaction"
+	}
+	out.Op(res, "sealedcommit")
+}
+
 func TestVerifC10Barrier(t *testing.T) {
 	out := vh.Open()
 	defer out.Close()
 	rng := vh.NewRand(vh.Seed())
+	c10SealedCommit(t, out)
 	nCases := vh.EnvInt("VERIF_C10_CASES", 1500)
 	if vh.Thorough() {
 		nCases = vh.EnvInt("VERIF_C10_CASES", 25000)
